@@ -37,6 +37,7 @@ def check(run):
     _copies(run, P)
     _nan_filter(run, P)
     _antimeridian(run, P)
+    _winding(run, P)
     _shell_builds(run, P)
     _data_paths(run, P)
 
@@ -211,6 +212,56 @@ def _antimeridian(run, P):
             run.holds("IDX/antimeridian-predicate", c, where(g, call), "predicate evaluated on the longitudes (column 0) of the unprojected shells")
         else:
             run.violation("IDX/antimeridian-predicate", c, where(g, call), f"predicate evaluated on {norm(a)}: it must see the longitudes of the unprojected shells (polygon_shells[:, :, 0])")
+
+
+def _winding(run, P):
+    """The GeoDataFrame path corrects only the faces flagged as crossing; for those antimeridian.fix_polygon must be allowed to repair the winding: with
+    fix_winding=False a clockwise face is read as the COMPLEMENT of the face ("a counterclockwise polygon from (-180,-90) to (180,90) is added", antimeridian's
+    documentation), so a piece spanning the whole map is returned for a clockwise face.  (The PolyCollection path passes every face through fix_polygon and
+    deliberately keeps fix_winding=False; it is not subject to this rule.)"""
+    from ..loader import FuncInfo
+    f = P.func(f"{GEO}:_build_corrected_shapely_polygons")
+    c = f"{f.key}:fix_polygon:winding"
+    # calls of fix_polygon in f or in module-level helpers it calls, with the bindings of the helper's parameters at the call site
+    found = []
+
+    def scan(g, bind, depth):
+        for n in ast.walk(g.node):
+            if not isinstance(n, ast.Call):
+                continue
+            if (dotted(n.func) or [""])[-1] == "fix_polygon":
+                found.append((g, n, bind))
+            elif depth < 2:
+                r = P.resolve_expr(g.module, n.func, g)
+                if isinstance(r, FuncInfo) and r.module is f.module and r.cls is None and r is not g:
+                    a_ = r.node.args
+                    prm = [x.arg for x in a_.posonlyargs + a_.args]
+                    b = dict(zip(prm, n.args))
+                    b.update({k.arg: k.value for k in n.keywords if k.arg})
+                    dflt = dict(zip(prm[len(prm) - len(a_.defaults):], a_.defaults))
+                    dflt.update({x.arg: d for x, d in zip(a_.kwonlyargs, a_.kw_defaults) if d is not None})
+                    for k_, v_ in dflt.items():
+                        b.setdefault(k_, v_)
+                    scan(r, b, depth + 1)
+    scan(f, {}, 0)
+    if not found:
+        run.incomplete("F-ARGS/fix-winding", c, where(f), "no call of antimeridian.fix_polygon reached from _build_corrected_shapely_polygons: how crossing faces are split is not recognised")
+        return
+    for g, call, bind in found:
+        kwv = next((k.value for k in call.keywords if k.arg == "fix_winding"), None)
+        if any(k.arg is None for k in call.keywords):
+            run.incomplete("F-ARGS/fix-winding", c, where(g, call), "fix_polygon called with **kwargs: fix_winding not decided")
+            continue
+        seen = 0
+        while isinstance(kwv, ast.Name) and kwv.id in bind and seen < 3:
+            kwv = bind[kwv.id]
+            seen += 1
+        if kwv is None or (isinstance(kwv, ast.Constant) and kwv.value in (True, None)):
+            run.holds("F-ARGS/fix-winding", c, where(g, call), "crossing faces are split with the winding repaired (fix_winding left at its default / True)")
+        elif isinstance(kwv, ast.Constant) and kwv.value is False:
+            run.violation("F-ARGS/fix-winding", c, where(g, call), "the GeoDataFrame path splits crossing faces with fix_winding=False: a clockwise face is taken for its complement and a piece spanning the whole longitude range is exported for it")
+        else:
+            run.incomplete("F-ARGS/fix-winding", c, where(g, call), f"fix_winding={norm(kwv)} is not a constant this rule can evaluate")
 
 
 # ---------------------------------------------------------------------------------------------------------------- shell builds
